@@ -2,7 +2,7 @@
 (***************************************************************************)
 (* C06: the public procedures as a table of signatures, and the set of     *)
 (* outcome classes a call may have.  A call is (procedure, arguments),     *)
-(* arguments drawn from a palette of 40 values of every kind with boundary *)
+(* arguments drawn from a palette of 41 values of every kind with boundary *)
 (* values.  The outcome of evaluating the call is one of                   *)
 (*     "ok" (a value), "err" (a reported error),                           *)
 (*     "panic", "abort", "timeout" (never allowed).                        *)
@@ -28,7 +28,7 @@ Palette == <<
   {"vec"},                             \* 7  #(1 2 3)
   {"vec", "circ"},                     \* 8  vector containing itself
   {"str"},                             \* 9  ""
-  {"str"},                             \* 10 non-ASCII string
+  {"str"},                             \* 10 non-ASCII string (also C1 and C0 controls, backslash, double quote)
   {"char"},                            \* 11 #\a
   {"char"},                            \* 12 a 4-byte character
   {"num", "int", "exact", "index"},    \* 13 0
@@ -58,7 +58,8 @@ Palette == <<
   {"vec"},                             \* 37 a vector holding a procedure
   {"char"},                            \* 38 a numeric character outside ASCII (arabic-indic digit four)
   {"num", "int", "exact", "index"},    \* 39 2 (a small count, a valid radix)
-  {"num", "int", "exact", "index"}     \* 40 16 (a valid radix)
+  {"num", "int", "exact", "index"},    \* 40 16 (a valid radix)
+  {"num", "int", "exact"}              \* 41 -1 left in bignum representation: (- (- (expt 2 64) (expt 2 64)) 1)
 >>
 NPal == Len(Palette)
 
